@@ -5,7 +5,7 @@ CONSTANTS
   Sessions = {"s1", "s2"}
   Cursors = {"c1", "c2"}
   Cursor0 = "c1"
-  Mutant = "none"
+  Mutant = "publish_all"
   Phase = "play"
   NTok <- MC_Tok6_N
   TokAt <- MC_Tok6_At
@@ -15,10 +15,10 @@ CONSTANTS
   MaxCommit = 2
   MaxAbort = 0
   MaxFail = 0
-  MaxPlay = 5
-  MaxPub = 3
-  Export = TRUE
-VIEW MC_ViewPlay
+  MaxPlay = 3
+  MaxPub = 2
+  Export = FALSE
+
 INVARIANTS TTypeOK BusIsTickScoped DuplicateRejected NoLeakIntoTick TickIsFunctionOfSet TickPartition CommitKeyAsBuilt LastMatSound SinkSound
 PROPERTIES HistoryImmutable OnlyCommitAddsTick AbortLeavesNothing RejectedEmitKeepsBus PublishExact SessionIsolation OnlySubscribedAppear SubsPersist PlaybackIsReadOnly
 CHECK_DEADLOCK FALSE
